@@ -26,7 +26,11 @@ Inductive killpoint :=
 | KNone
 | KAfterFork        (* before the child executes anything *)
 | KInCallee         (* the child is about to run / is running the callee *)
-| KMidSend.         (* the child has written only a part of a large message *)
+| KMidSend          (* the child has written only a part of a large message *)
+(* the awaiting task is cancelled (task.cancel(), asyncio.wait_for timeout) ... *)
+| KCancelBeforeStart   (* ... before its coroutine has run at all *)
+| KCancelInCallee      (* ... while it waits and the callee computes *)
+| KCancelAfterSent.    (* ... while it still waits although the child has already sent / has gone *)
 
 Definition mk_beh (out : cout) (raised : exn) (big pick asy reterr unp : bool) : beh :=
   {| b_out := out; b_isa := fun c => derives raised c; b_big := big; b_pick := pick; b_async := asy;
@@ -68,6 +72,16 @@ Section Run.
     | S f => if p_done s then s else alternate f (step_or_stay LChild (step_or_stay LParent s))
     end.
 
+  (* the parent runs until it is suspended in the wait (or cannot move / has finished) *)
+  Fixpoint until_waiting (fuel : nat) (s : lst) : lst :=
+    match fuel with
+    | O => s
+    | S f => if negb (p_running s) then s
+             else match lstep P C b 0 LParent s with Some s' => until_waiting f s' | None => s end
+    end.
+  Definition child_sent (s : lst) : bool :=
+    negb (c_running s) || match c_pend (cs s) with CPHandled => true | _ => false end.
+
   Definition run_case (k : killpoint) : lst :=
     let s1 := until_forked 40 linit in
     let s2 := match k with
@@ -75,6 +89,9 @@ Section Run.
               | KAfterFork => kill_if c_running s1
               | KInCallee => kill_if (fun s => c_running s && at_callee s) (child_until at_callee 40 s1)
               | KMidSend => kill_if (fun s => c_running s && mid_send s) (child_until mid_send 40 s1)
+              | KCancelBeforeStart => step_or_stay LCancel linit
+              | KCancelInCallee => step_or_stay LCancel (child_until at_callee 40 (until_waiting 40 s1))
+              | KCancelAfterSent => step_or_stay LCancel (child_until child_sent 40 (until_waiting 40 s1))
               end in
     alternate 200 s2.
 End Run.
